@@ -43,7 +43,13 @@ def run_operator_case(case, prop, configs, weakly, want, nq=8, cinf_bounds=(5, 5
     rng = gen.rng_for(case['seed'], prop, case['idx'])
     fam = case.get('family')
     if case.get('witness') is not None:
-        return run_witness_case(case, prop, configs, weakly)
+        from .. import instrument as _ins
+        g = _ins.StallGuard()
+        g.install()
+        try:
+            return run_witness_case(case, prop, configs, weakly)
+        finally:
+            g.uninstall()
     kw = {}
     if 'c-inference' in [c[0] for c in configs]:
         kw = dict(nat=rng.randint(2, cinf_bounds[0]), ncond=rng.randint(1, cinf_bounds[1]))
@@ -310,7 +316,11 @@ def run_witness_case(case, prop, configs, weakly):
         except BaseException as e:  # noqa
             if type(e).__name__ == 'SoftTimeout':
                 raise
-            res['violations'].append({'sig': '%s:%s:exception:%s' % (cname, mode, type(e).__name__),
+            if type(e).__name__ == 'Stall' and not weakly:
+                res['inconclusive'].append('%s %s: %s' % (cname, mode, e))
+                continue
+            res['violations'].append({'sig': '%s:%s:%s' % (cname, mode, 'non-termination(enumeration makes no progress)'
+                                                           if type(e).__name__ == 'Stall' else 'exception:' + type(e).__name__),
                                       'detail': {'base': bdesc, 'error': str(e)[:200]}})
             continue
         for qi, (B, A) in enumerate(qs):
